@@ -41,6 +41,10 @@ type resetSpec struct {
 	Threshold     uint64
 	CheckCallback bool
 	CheckBuffered bool // C15: per-stream buffered amount must be zero after the reset
+	// MixedDCEP: every second message is written with the DCEP payload type, which is sent
+	// ordered even on an unordered stream: ordered and unordered messages of one stream are
+	// queued when Close is called
+	MixedDCEP bool
 }
 
 type resetObs struct {
@@ -191,7 +195,11 @@ func resetCycle(m *Sim, spec *resetSpec, cycle int) bool {
 				m.Sleep(spec.MsgGap)
 			}
 			data := payload(sid, cycle*16+i, sz)
-			if _, err := streams[sid].a.WriteSCTP(data, PayloadTypeWebRTCBinary); err != nil {
+			ppi := PayloadTypeWebRTCBinary
+			if spec.MixedDCEP && i%2 == 1 {
+				ppi = PayloadTypeWebRTCDCEP
+			}
+			if _, err := streams[sid].a.WriteSCTP(data, ppi); err != nil {
 				m.Failf("write", "cycle %d: write on A stream %d: %v", cycle, sid, err)
 				return false
 			}
@@ -394,6 +402,14 @@ func propC14(j *Job) {
 							sp := *spec
 							sp.KillResetReq, sp.Cycles = 7, 1
 							j.Explore(fmt.Sprintf("R/%s/m%d/reset-req-lost7", mode.Name, len(sizes)), resetScenario(&sp), Budget{K: 0}, nil)
+							if j.capped() {
+								return
+							}
+						}
+						if !two && !late && si == 3 && unordered {
+							sp := *spec
+							sp.MixedDCEP = true
+							j.Explore(fmt.Sprintf("R/%s/m%d/U%v/mixed-dcep", mode.Name, len(sizes), unordered), resetScenario(&sp), Budget{K: k}, nil)
 							if j.capped() {
 								return
 							}
